@@ -2,7 +2,7 @@ package dawn
 
 // Correspondence harness for the reason string of C16 (function.go: diffEnv).  Added through `go test -overlay`.
 // Writes to $VERIF_OUT:
-//   E \t <class> \t <oldEnv> \t <newEnv> \t <ok|err|panic> \t <uptodate 0/1> \t <hex reason>
+//   E \t <class> \t <stamp 0=error 1=equal 2=differs> \t <oldEnv> \t <newEnv> \t <ok|err|panic> \t <uptodate 0/1> \t <hex reason>
 //   ORACLE \t <name> \t <oldEnv> \t <newEnv> \t <reason>
 
 import (
@@ -46,13 +46,38 @@ func c16rval(v starlark.Value) string {
 	return "<?" + v.Type() + ">"
 }
 
-func c16diffEnv(o, n starlark.Value) (up bool, reason string, err error, panicked string) {
+// mode 0: no callable (stamp() fails, as for a hand-built function value); 1: a real callable whose stamp
+// differs from the recorded one; 2: a real callable whose stamp equals the recorded one.
+func c16diffEnv(o, n starlark.Value, mode int) (up bool, reason string, err error, panicked string, stampState int) {
 	defer func() {
 		if x := recover(); x != nil {
 			panicked = fmt.Sprint(x)
 		}
 	}()
 	f := &function{oldEnv: o, newEnv: n}
+	if mode > 0 {
+		globals, xerr := starlark.ExecFile(&starlark.Thread{}, "c16.star", "def f(x):\n  return x + 1\n", nil)
+		if xerr != nil {
+			panic(xerr)
+		}
+		f.function = globals["f"].(*starlark.Function)
+		st, serr := f.stamp()
+		if serr != nil {
+			panic(serr)
+		}
+		if mode == 2 {
+			f.targetInfo.Data = st
+		} else {
+			f.targetInfo.Data = st + "x"
+		}
+	}
+	if st, serr := f.stamp(); serr != nil {
+		stampState = 0
+	} else if st == f.targetInfo.Data {
+		stampState = 1
+	} else {
+		stampState = 2
+	}
 	up, reason, _, err = f.diffEnv()
 	return
 }
@@ -76,9 +101,10 @@ func TestVerifC16Reason(t *testing.T) {
 	}
 	cases, oracles := 0, 0
 
+	mode := 0
 	emit := func(class string, o, n starlark.Value, differing map[string]bool, dictCase bool) {
 		cases++
-		up, reason, err, p := c16diffEnv(o, n)
+		up, reason, err, p, sei := c16diffEnv(o, n, mode)
 		st := "ok"
 		if p != "" {
 			st = "panic"
@@ -89,18 +115,18 @@ func TestVerifC16Reason(t *testing.T) {
 		if up {
 			u = 1
 		}
-		fmt.Fprintf(w, "E\t%s\t%s\t%s\t%s\t%d\t%s\n", class, c16rval(o), c16rval(n), st, u, hex.EncodeToString([]byte(reason)))
+		fmt.Fprintf(w, "E\t%s\t%d\t%s\t%s\t%s\t%d\t%s\n", class, sei, c16rval(o), c16rval(n), st, u, hex.EncodeToString([]byte(reason)))
 		if st != "ok" {
 			oracles++
 			fmt.Fprintf(w, "ORACLE\t%s\t%s\t%s\t%s\n", st, c16rval(o), c16rval(n), p)
 			return
 		}
-		if !dictCase {
+		if !dictCase || sei == 1 {
 			return
 		}
 		// oracle: the reason names exactly the listed keys that differ
 		eq, _ := starlark.Equal(o, n)
-		if up != eq {
+		if (sei == 0 && up != eq) || (sei == 2 && up) {
 			oracles++
 			fmt.Fprintf(w, "ORACLE\tup-to-date-iff-equal\t%s\t%s\t%s\n", c16rval(o), c16rval(n), reason)
 		}
@@ -123,6 +149,7 @@ func TestVerifC16Reason(t *testing.T) {
 	// the way a key differs rotates between: value changed, removed from new, absent from old
 	for mask := 0; mask < 1<<nk; mask++ {
 		for extra := 0; extra < 2; extra++ {
+			mode = (mask / 2) % 2 // no callable / real callable with a different recorded stamp
 			o, n := starlark.NewDict(nk+1), starlark.NewDict(nk+1)
 			differing := map[string]bool{}
 			for i, k := range functionEnvKeys {
@@ -152,6 +179,7 @@ func TestVerifC16Reason(t *testing.T) {
 			emit(fmt.Sprintf("subset-%d", len(differing)), o, n, differing, true)
 		}
 	}
+	mode = 0
 	// other shapes
 	d := starlark.NewDict(1)
 	d.SetKey(starlark.String("code"), starlark.MakeInt(1))
@@ -164,5 +192,27 @@ func TestVerifC16Reason(t *testing.T) {
 	emit("empty", e, d, map[string]bool{"code": true}, true)
 	emit("empty", d, e, map[string]bool{"code": true}, true)
 	emit("empty", e, starlark.NewDict(0), map[string]bool{}, true)
+	// a real callable: stamp differs from / equals the recorded one
+	for mode = 1; mode <= 2; mode++ {
+		emit(fmt.Sprintf("stamp-mode-%d", mode), d, e, map[string]bool{"code": true}, true)
+		emit(fmt.Sprintf("stamp-mode-%d", mode), d, d, map[string]bool{}, true)
+		emit(fmt.Sprintf("stamp-mode-%d", mode), starlark.None, d, nil, false)
+		emit(fmt.Sprintf("stamp-mode-%d", mode), starlark.MakeInt(1), d, nil, false)
+	}
+	mode = 0
+	// environments nested around the depth limit of EqualDepth(.., 1000): beyond it the generic reason is given
+	for _, k := range []int{996, 997, 998, 999, 1000, 1003} {
+		nest := func(leaf starlark.Value) starlark.Value {
+			v := leaf
+			for i := 0; i < k; i++ {
+				v = starlark.Tuple{v}
+			}
+			return v
+		}
+		o, n := starlark.NewDict(1), starlark.NewDict(1)
+		o.SetKey(starlark.String("code"), nest(starlark.MakeInt(1)))
+		n.SetKey(starlark.String("code"), nest(starlark.MakeInt(2)))
+		emit("deep", o, n, nil, false)
+	}
 	t.Logf("C16 reason: %d cases, %d oracle failures", cases, oracles)
 }
